@@ -790,6 +790,22 @@ def gen_rates(rnd, dyn='sto'):
                 maxT=rnd.choice([2.0, 4.0, 8.0]), seed=rnd.random(), specials=ps, pspecial=0.25, oracles=['clock', 'member', 'loci'])
 
 
+def gen_adaptive(rnd, dyn=None):
+    """an adaptive-network process: two per-element events on one edge locus, the first of which cuts an edge of the network (so that an
+    element chosen for the second may have left the locus through the topology, its endpoints' compartments unchanged)"""
+    nodes, edges = rand_net(rnd, 3, 6, kind=rnd.choice(['er', 'complete', 'star', 'path']))
+    if not edges: edges = [[nodes[0], nodes[1]]]
+    cut = [rnd.choice(edges) for _ in range(rnd.choice([1, 2]))]
+    handlers = [['E', [['RMEDGE', a, b] for (a, b) in cut]], ['E', [['CCL', 1]]], ['N', [['CCL', 0]]]]
+    perel = [[0, rnd.choice([0.5, 1.0]), 0], [0, rnd.choice([0.5, 1.0]), 1]]
+    if rnd.random() < 0.5: perel.append([1, rnd.choice([0.25, 0.5]), 2])
+    sp = dict(comps=[0.5, 0.5], nodeloci=[1], edgeloci=[[0, 1]], multiloci=[], perel=[[1, p, h] if l == 0 else [0, p, h] for (l, p, h) in perel],
+              fixed=[], handlers=handlers, posts=[])
+    ps = sorted({p for (_, p, _) in sp['perel'] if 0 < p < 1})
+    return dict(procs=[dict(cls='Script', name=None, spec=sp)], seq='bare', dyn=dyn or rnd.choice(['syn', 'syn', 'sto']), nodes=nodes, edges=edges,
+                maxT=rnd.choice([2.0, 3.0]), seed=rnd.random(), specials=ps, pspecial=0.15, oracles=['clock', 'member', 'loci'])
+
+
 def gen_monitored(rnd, dyn=None):
     """C12: a shipped model observed by a Monitor (and NetworkStatistics) in a sequence"""
     base = gen_shipped(rnd, dyn=dyn, oracles=('clock', 'member', 'loci'))
